@@ -84,6 +84,12 @@ def build(rng, mask, i, hostile_mode=False, use_alias=False):
         exp["omit_instanceID"] = True
     if i % 13 == 0:
         s["instance_id"] = "uid"
+    if i % 10 == 6:
+        # the legacy way of giving title / id: rows on the survey sheet whose type is the setting's name
+        for key, typ in (("form_title", rng.choice(["form_title", "set_form_title"])), ("form_id", rng.choice(["form_id", "set_form_id"]))):
+            if key in s and key in exp and rng.random() < 0.7:
+                f.survey.insert(rng.randint(0, len(f.survey)), Row("q", typ, s.pop(key), {}))
+                exp["legacy_rows"] = True
     if i % 9 in (4, 7) and "form_id" in s:
         # both spellings of the id, in either column order: form_id is the one that counts (pyxform warns), whatever the order
         other = f"idstring_marker_{i}"
@@ -192,7 +198,12 @@ def run_case(ctx, rng, mask, i, channel, argmode, hostile_mode, use_alias):
     want_id = norm(exp.get("form_id")) if "form_id" in exp else (fallback or "data")
     want_title = norm(exp.get("form_title")) if "form_title" in exp else want_id
     want_root = norm(exp.get("name")) if "name" in exp else (args.get("form_name") or "data")
-    cmp("title", "".join(p.title.itertext()), want_title)
+    got_title = "".join(p.title.itertext())
+    if exp.get("legacy_rows") and "form_title" not in exp and got_title == (fallback or "data"):
+        # the id came from a legacy survey-sheet row; whether an absent title then defaults to that id or to the file name is not documented: either is accepted
+        ctx.ctr("legacy_row_title_fallback_to_file_name")
+    else:
+        cmp("title", got_title, want_title)
     cmp("id", p.primary.get("id"), want_id)
     cmp("root-name", xf.local(p.primary.tag), want_root)
     cmp("version", p.primary.get("version"), norm(exp.get("version")) if "version" in exp else exp.get("attr_version"))
